@@ -41,10 +41,14 @@ CLAIMED = {
                 text="Seeded search over operation histories (select by slice/step/mask/integer list with repeats and negatives, concatenate, replace fields, field access, write; <= 12 ops) on tables read lazily, whole or chunked, from generated files with non-canonical text (leading zeros, '+5', scientific floats, CRLF, extra columns, SAM tags, FASTQ '+name'). A row model predicts the exact bytes of selection-only variables and the field texts after concatenation/replacement; every written variable is compared, and every variable is written once more at the end of the history.",
                 note="'Only the replaced columns change' is read column-wise: a column replaced in any operand of a concatenation may be re-serialised in all rows (compared by value). Lazy/eager agreement of pure observations is C05's subject. BAM sources are exercised under C16.",
                 tech=TECH + "operation-history scheduler on stateful lazy tables (raw buffer / parsed cache / set values) with a row model as oracle"),
+    "C16": dict(engine="iosim", cat="exploration", ref="§4 C16",
+                text="Seeded search: BAM files produced by an independent struct-level encoder (0..6 references, names up to 254 chars, all nine CIGAR ops, odd/even/zero l_seq over the 16-letter code, qualities incl. the 0xFF convention, all tag types, unmapped and placed-unmapped records) with BGZF blocks cut at drawn offsets (inside records and header) on simulated storage; decoded whole and under a chunk-size sweep (k >= largest record), lazy and eager; interval/strand derivation; write-back (whole / mask / permutation / stream, lazy and eager source) decoded again by the independent decoder; one-shot EIO in 1/8 of runs.",
+                note="Trusts bnpsim/models/bam.py (validated against the repo's example .bam/.sam twins: byte-exact re-encoding). Chunk sizes below the largest record are probed, not judged.",
+                tech=TECH + "BGZF member-layout x chunk-size schedule over SimFS + EIO fault; independent spec-level encoder/decoder as oracle"),
 }
 
 _P = "check designed in DESIGN.md (simulated) but not built yet at this commit; not claimed until its check exists"
-PENDING = {k: _P for k in ["C05", "C16", "C20"]}
+PENDING = {k: _P for k in ["C05", "C20"]}
 
 NOT_APPLICABLE = {
     "C06": "pure function of (byte, alphabet): no storage, stream, history or shared state, so no scheduler or fault decision can change the outcome (DESIGN §4 C06)",
